@@ -112,17 +112,20 @@ pub proof fn lemma_set_radmin(w: World, role: Symbol, admin_role: Symbol)
 }
 
 // ---- C07: the handshake on one key pair ----
+/// the pending key and its expiry sibling never collide (needed for every read-over-write between them)
+pub open spec fn keys_apart<K: ToSV>(k: K) -> bool { k.sv() != xk(k).sv() }
+
 /// facts about an offer step
 pub proof fn lemma_offer<K: ToSV>(w: World, k: K, new: Address, live: u32)
-    requires offer_guard(w, k, new, live),
+    requires offer_guard(w, k, new, live), keys_apart(k),
     ensures
         //@@ C07:lemma.offer
-        live == 0 ==> tget(offer_post(w, k, new, live), k).is_none(),
+        live == 0 ==> tget(offer_post(w, k, new, live), k).is_none() && tget(offer_post(w, k, new, live), xk(k)).is_none(),
         live != 0 ==> dec::<Address>(tget(offer_post(w, k, new, live), k)) == Some(new),
-        // the storage lifetime is at least the declared one …
+        // the declared lifetime is recorded, whatever entry was there before (this is what defect D2 lacked)
+        live != 0 ==> declared_expiry(offer_post(w, k, new, live), k) == Some(live),
+        // the storage lifetime covers the declared one
         live != 0 ==> tlive(offer_post(w, k, new, live), k) >= live,
-        // … and at most the larger of the declared one, the network minimum, and the lifetime of a still-live entry it replaces
-        live != 0 ==> tlive(offer_post(w, k, new, live), k) <= (if tget(w, k).is_some() && tlive(w, k) > offer_live_bound(w, live) { tlive(w, k) } else { offer_live_bound(w, live) }),
         offer_post(w, k, new, live).instance == w.instance,
         offer_post(w, k, new, live).persistent == w.persistent,
         offer_post(w, k, new, live).auths == w.auths,
@@ -130,25 +133,47 @@ pub proof fn lemma_offer<K: ToSV>(w: World, k: K, new: Address, live: u32)
 {
     broadcast use sdk_store;
     new.lemma_rt();
+    live.lemma_rt();
+    if live != 0 {
+        let lf = (live - w.ledger_seq) as u32;
+        let w1 = text(tset(w, k, new.sv()), k, lf, lf);
+        let w2 = tset(w1, xk(k), live.sv());
+        lemma_tget_other(w1, xk(k), live.sv(), lf, k);
+        lemma_tget_other(w2, xk(k), live.sv(), lf, k);
+    } else {
+        lemma_tget_other(tdel(w, k), xk(k), SV::Void, 0, k);
+    }
 }
 
-/// facts about an accept step: only a live pending entry can be accepted, by the pending account itself,
-/// and it is consumed
+/// facts about an accept step: only a live pending entry within its declared lifetime can be accepted, by the
+/// pending account itself, and it is consumed together with its expiry record
 pub proof fn lemma_accept<K: ToSV, P: ToSV>(w: World, active: K, pending: P)
-    requires tget(w, pending).is_some(),
+    requires accept_guard(w, pending), keys_apart(pending),
     ensures
         //@@ C07:lemma.accept
         dec::<Address>(iget(accept_post(w, active, pending), active)) == dec::<Address>(tget(w, pending)),
         accept_post(w, active, pending).auths.contains(dec::<Address>(tget(w, pending)).unwrap()),
         tget(accept_post(w, active, pending), pending).is_none(),
+        tget(accept_post(w, active, pending), xk(pending)).is_none(),
         tlive(w, pending) >= w.ledger_seq,
+        declared_expiry(w, pending).is_some() ==> w.ledger_seq <= declared_expiry(w, pending).unwrap(),
         accept_post(w, active, pending).persistent == w.persistent,
 {
     broadcast use sdk_store;
     let p = dec::<Address>(tget(w, pending)).unwrap();
     p.lemma_rt();
-    assert(iget(tdel(w_auth(w, p), pending), active) == iget(w, active));
+    let w1 = tdel(w_auth(w, p), pending);
+    lemma_tget_other(w1, xk(pending), SV::Void, 0, pending);
+    assert(iget(tdel(w1, xk(pending)), active) == iget(w, active));
 }
+
+/// temporary-store writes at one key leave every key with a different encoding alone (keys of different types)
+pub proof fn lemma_tget_other<K1: ToSV, K2: ToSV>(w: World, k: K1, v: SV, t: u32, k2: K2)
+    requires k.sv() != k2.sv(),
+    ensures tget(tset(w, k, v), k2) == tget(w, k2), tlive(tset(w, k, v), k2) == tlive(w, k2),
+        tget(tdel(w, k), k2) == tget(w, k2),
+        tget(w, k).is_some() ==> tget(text(w, k, t, t), k2) == tget(w, k2) && tlive(text(w, k, t, t), k2) == tlive(w, k2),
+{}
 
 // ---- the public operations as a relation on worlds ----
 pub enum AOp {
@@ -173,10 +198,10 @@ pub open spec fn aop_guard(w: World, op: AOp) -> bool {
         AOp::RenounceRole { role, caller } => remove_guard(w, caller, role),
         AOp::SetRoleAdmin { role, admin_role } => cur_admin(w).is_some(),
         AOp::OfferAdmin { new, live } => cur_admin(w).is_some() && offer_guard(w, k_padmin(), new, live),
-        AOp::AcceptAdmin => cur_admin(w).is_some() && pending_admin(w).is_some(),
+        AOp::AcceptAdmin => cur_admin(w).is_some() && accept_guard(w, k_padmin()),
         AOp::RenounceAdmin => cur_admin(w).is_some() && pending_admin(w).is_none(),
         AOp::OfferOwner { new, live } => cur_owner(w).is_some() && offer_guard(w, k_powner(), new, live),
-        AOp::AcceptOwner => pending_owner(w).is_some(),
+        AOp::AcceptOwner => accept_guard(w, k_powner()),
         AOp::RenounceOwner => cur_owner(w).is_some() && pending_owner(w).is_none(),
     }
 }
@@ -291,9 +316,17 @@ pub proof fn lemma_aop_c06(w: World, op: AOp, m: Set<(Address, Symbol)>)
 
 pub proof fn lemma_principal_keys()
     ensures AccessControlStorageKey::Admin.sv() != OwnableStorageKey::Owner.sv(), k_padmin().sv() != k_powner().sv(),
+        keys_apart(k_padmin()), keys_apart(k_powner()),
+        xk(k_padmin()).sv() != k_powner().sv(), xk(k_powner()).sv() != k_padmin().sv(),
+        xk(k_padmin()).sv() != xk(k_powner()).sv(),
 {
     assert(sv_tag(AccessControlStorageKey::Admin.sv()) != sv_tag(OwnableStorageKey::Owner.sv()));
     assert(sv_tag(k_padmin().sv()) != sv_tag(k_powner().sv()));
+    // an expiry key is a 2-element vector whose first element is itself a vector: its tag is -1, an enum key's is its variant symbol
+    assert(sv_tag(xk(k_padmin()).sv()) == -1);
+    assert(sv_tag(xk(k_powner()).sv()) == -1);
+    assert(xk(k_padmin()).sv()->Vec_0[0] == k_padmin().sv());
+    assert(xk(k_powner()).sv()->Vec_0[0] == k_powner().sv());
 }
 /// role operations never touch the admin / owner slots
 pub proof fn lemma_role_ops_principals(w: World, op: AOp)
@@ -518,61 +551,71 @@ pub proof fn lemma_ac_history(w0: World, steps: Seq<AStep>)
 }
 
 // ---- C07 over histories: which offer an accept consumes ----
-/// the admin offer in force after `steps`: (designated account, last ledger at which its storage entry can still be read)
-pub open spec fn admin_offer(w0: World, steps: Seq<AStep>) -> Option<(Address, int)>
+/// the admin offer in force after `steps`: (designated account, declared live_until_ledger); None after cancel / accept
+pub open spec fn admin_offer(steps: Seq<AStep>) -> Option<(Address, u32)>
     decreases steps.len()
 {
     if steps.len() == 0 { None } else {
-        let wp = arun(w0, steps.drop_last());
-        let prev = admin_offer(w0, steps.drop_last());
         match steps.last() {
-            AStep::Op(AOp::OfferAdmin { new, live }) =>
-                if live == 0 { None } else {
-                    // D2: a still-readable predecessor entry lends its (possibly longer) storage lifetime to the new offer
-                    let inherited = if prev.is_some() && prev.unwrap().1 >= wp.ledger_seq && prev.unwrap().1 > offer_live_bound(wp, live) { prev.unwrap().1 } else { offer_live_bound(wp, live) };
-                    Some((new, inherited))
-                },
+            AStep::Op(AOp::OfferAdmin { new, live }) => if live == 0 { None } else { Some((new, live)) },
             AStep::Op(AOp::AcceptAdmin) => None,
-            _ => prev,
+            _ => admin_offer(steps.drop_last()),
         }
     }
 }
-pub open spec fn offer_tracks(w: World, o: Option<(Address, int)>) -> bool {
+/// the pending entry and its expiry record are created, extended and deleted together, so they have the same storage
+/// lifetime, and while readable they carry the latest offer
+pub open spec fn offer_tracks(w: World, o: Option<(Address, u32)>) -> bool {
     let k = k_padmin().sv();
-    w.temporary.contains_key(k) && w.temp_live.contains_key(k) ==>
-        o.is_some() && <Address as ToSV>::unsv(w.temporary[k]) == o.unwrap().0 && w.temp_live[k] <= o.unwrap().1
+    let x = xk(k_padmin()).sv();
+    &&& w.temporary.contains_key(k) == w.temporary.contains_key(x)
+    &&& w.temp_live.contains_key(k) == w.temp_live.contains_key(x)
+    &&& (w.temp_live.contains_key(k) ==> w.temp_live[k] == w.temp_live[x])
+    &&& (w.temporary.contains_key(k) && w.temp_live.contains_key(k) ==>
+            o.is_some() && <Address as ToSV>::unsv(w.temporary[k]) == o.unwrap().0 && <u32 as ToSV>::unsv(w.temporary[x]) == o.unwrap().1)
 }
-/// no pending-admin entry exists at deployment
-pub open spec fn offer_genesis(w: World) -> bool { !w.temporary.contains_key(k_padmin().sv()) }
+/// no pending-admin entry (and no expiry record) exists at deployment
+pub open spec fn offer_genesis(w: World) -> bool {
+    !w.temporary.contains_key(k_padmin().sv()) && !w.temporary.contains_key(xk(k_padmin()).sv())
+        && !w.temp_live.contains_key(k_padmin().sv()) && !w.temp_live.contains_key(xk(k_padmin()).sv())
+}
+
+pub proof fn lemma_offer_step(wp: World, op: AOp, o: Option<(Address, u32)>)
+    requires aop_guard(wp, op), offer_tracks(wp, o),
+    ensures offer_tracks(aop_post(wp, op), (match op {
+        AOp::OfferAdmin { new, live } => if live == 0 { None } else { Some((new, live)) },
+        AOp::AcceptAdmin => None,
+        _ => o,
+    })),
+{
+    lemma_principal_keys();
+    let k = k_padmin().sv();
+    let x = xk(k_padmin()).sv();
+    match op {
+        AOp::OfferAdmin { new, live } => {
+            new.lemma_rt();
+            live.lemma_rt();
+        }
+        AOp::AcceptAdmin => {}
+        AOp::OfferOwner { new, live } => {}
+        AOp::AcceptOwner => {}
+        _ => { lemma_role_ops_or_renounce_keep_temp(wp, op); }
+    }
+}
 
 pub proof fn lemma_offer_history(w0: World, steps: Seq<AStep>)
     requires offer_genesis(w0), avalid(w0, steps),
     ensures
-        //@@ C07:history.accept_consumes_latest_live_offer
-        offer_tracks(arun(w0, steps), admin_offer(w0, steps)),
+        //@@ C07:history.pending_entry_is_the_latest_offer_with_its_declared_expiry
+        offer_tracks(arun(w0, steps), admin_offer(steps)),
     decreases steps.len()
 {
-    broadcast use sdk_store;
-    lemma_principal_keys();
-    let w = arun(w0, steps);
     if steps.len() > 0 {
         let pre = steps.drop_last();
         let wp = arun(w0, pre);
         lemma_offer_history(w0, pre);
         match steps.last() {
-            AStep::Op(op) => {
-                match op {
-                    AOp::OfferAdmin { new, live } => {
-                        let w1 = w_auth(wp, cur_admin(wp).unwrap());
-                        lemma_offer(w1, k_padmin(), new, live);
-                        new.lemma_rt();
-                    }
-                    AOp::AcceptAdmin => {}
-                    AOp::OfferOwner { new, live } => {}
-                    AOp::AcceptOwner => {}
-                    _ => { lemma_role_ops_or_renounce_keep_temp(wp, op); }
-                }
-            }
+            AStep::Op(op) => { lemma_offer_step(wp, op, admin_offer(pre)); }
             AStep::Tick { seq, ts } => {}
         }
     }
@@ -582,23 +625,31 @@ pub proof fn lemma_role_ops_or_renounce_keep_temp(w: World, op: AOp)
     ensures aop_post(w, op).temporary == w.temporary, aop_post(w, op).temp_live == w.temp_live,
 {}
 
-/// C07 (history form): an accept_admin_transfer that returns at ledger L consumed the offer in force — made
-/// by the then-current admin for exactly the accepting account, not cancelled or replaced since — and
-/// L is within that offer's readable lifetime
+/// C07 (history form): an accept_admin_transfer that returns at ledger L consumed the offer in force — made by the
+/// then-current admin for exactly the accepting account, not cancelled or replaced since — and L is not past the
+/// live_until_ledger that very offer declared
 pub proof fn lemma_accept_uses_offer(w0: World, steps: Seq<AStep>)
     requires offer_genesis(w0), avalid(w0, steps), steps.len() > 0, steps.last() == AStep::Op(AOp::AcceptAdmin),
     ensures
-        //@@ C07:history.accept_needs_offer
-        admin_offer(w0, steps.drop_last()).is_some(),
-        cur_admin(arun(w0, steps)) == Some(admin_offer(w0, steps.drop_last()).unwrap().0),
-        arun(w0, steps.drop_last()).ledger_seq <= admin_offer(w0, steps.drop_last()).unwrap().1,
-        admin_offer(w0, steps).is_none(),
+        //@@ C07:history.accept_only_within_declared_lifetime_of_latest_offer
+        admin_offer(steps.drop_last()).is_some(),
+        cur_admin(arun(w0, steps)) == Some(admin_offer(steps.drop_last()).unwrap().0),
+        arun(w0, steps.drop_last()).ledger_seq <= admin_offer(steps.drop_last()).unwrap().1,
+        admin_offer(steps).is_none(),
 {
-    broadcast use sdk_store;
     let pre = steps.drop_last();
     let wp = arun(w0, pre);
     lemma_offer_history(w0, pre);
+    lemma_principal_keys();
     lemma_accept(wp, AccessControlStorageKey::Admin, k_padmin());
     let p = pending_admin(wp).unwrap();
     p.lemma_rt();
+    // the pending entry is readable, so by the tracking invariant its expiry record is readable too and holds the
+    // declared expiry of the offer in force
+    assert(wp.temp_has(k_padmin().sv()));
+    assert(wp.temp_has(xk(k_padmin()).sv()));
+    assert(declared_expiry(wp, k_padmin()) == Some(admin_offer(pre).unwrap().1));
+    assert(iget(accept_post(wp, AccessControlStorageKey::Admin, k_padmin()), AccessControlStorageKey::Admin) == Some(p.sv())) by {
+        broadcast use sdk_store;
+    }
 }
